@@ -1,8 +1,7 @@
 /-
   Finv (C04), part 26: one step and histories — every call in `Op.core` preserves the invariant.
 -/
-import XotModel.Lemmas.FinvUnwrap2
-import XotModel.Lemmas.FinvWs
+import XotModel.Lemmas.FinvClone2
 
 namespace XotModel
 namespace Forest
@@ -41,7 +40,7 @@ theorem step_inv {f : Forest} (hi : f.Inv) (o : Op) (hc : o.core = true) : (f.st
   | replace a b => cases hc
   | elementWrap n name => exact elementWrap_inv hi n name
   | elementUnwrap n => exact elementUnwrap_inv hi n
-  | cloneNode n => cases hc
+  | cloneNode n => exact cloneNode_inv hi n
 
 theorem run_inv {f : Forest} (hi : f.Inv) (ops : List Op) (hc : ∀ o ∈ ops, o.core = true) :
     (f.run ops).Inv := by
